@@ -40,6 +40,23 @@ def predicate(it):
     sig = {"rule": "mes", "sat": cfg.get("sat"), "binary": cfg.get("binary"), "multi": bool(cfg.get("multi")), "res": bool(cfg.get("res", True))}
     if cfg.get("sp_sat"):
         sig["sat_profile_arg"] = cfg.get("sp_mode")
+    if cfg.get("tie") == "refuse":
+        # the refusing rule raises on a real tie and ONLY then: a run whose rounds each have a single project at the least price returns
+        # normally (round 8, C02-r8A: the `len(tied) > 1` guard around the tie-breaking call dropped)
+        ecase, ecfg = ruleprops.effective(case, cfg)
+        if not ecase.ballots:
+            return []
+        exp, _ = oracle.mes(case, utilities_of(ecase, ecfg), tie="lexico")
+        it.capped, it.n_bought = False, len(exp)
+        if oracle.mes.last_had_tie:
+            return [] if (kind == "err" and val == "tie") or kind == "ok" else [violation(f"Equal Shares with the refusing tie rule raised {val}", case, cfg, sig=dict(sig, err=val))]
+        if kind == "err":
+            return [violation(f"Equal Shares with the refusing tie-breaking rule raised {val} although no round of the run has a tie", case, cfg,
+                              impl=rules.canon(it.ans), expected=sorted(case.rank[p] for p in exp), sig=dict(sig, err=val, clause="refuse_without_tie"))]
+        if sorted(val) != sorted(case.rank[p] for p in exp):
+            return [violation("Equal Shares outcome (refusing tie rule, no tie) differs from the textbook procedure", case, cfg, impl=sorted(val),
+                              expected=sorted(case.rank[p] for p in exp), sig=dict(sig, clause="refuse_without_tie"))]
+        return []
     if kind == "err":
         return [violation(f"Equal Shares raised {val}: {it.raw!r}", case, cfg, impl=rules.canon(it.ans), sig=dict(sig, err=val))]
     # a caller-supplied satisfaction profile decides the utilities, whatever sat_class names (documented precedence)
@@ -163,6 +180,19 @@ def satprofile_pairs(ctx, n):
         yield case, cfg
 
 
+def refuse_pairs(ctx, n):
+    """the refusing tie-breaking rule: an exception on a real tie, a normal answer otherwise"""
+    rng = ctx.rng
+    for _ in range(n):
+        case = core.gen_election(rng, btypes=("app", "app", "card"), m_lo=1, m_hi=5)
+        cfg = rulegen.gen_rule_cfg(rng, case, rules=("mes",), allow_refuse=False)
+        cfg["tie"] = "refuse"
+        cfg["res"] = True
+        cfg.pop("init", None)
+        ctx.count("stream", "refuse")
+        yield case, cfg
+
+
 def run(ctx):
     ctx.rule = RULE
     items = ruleprops.run_items(ctx, pairs(ctx, ctx.scale(3000, 30000)), predicate, nontrivial)
@@ -173,6 +203,7 @@ def run(ctx):
     items += ruleprops.run_items(ctx, satprofile_pairs(ctx, ctx.scale(600, 5000)), predicate, nontrivial, compare=False)
     items += ruleprops.run_items(ctx, neartie_pairs(ctx, ctx.scale(500, 5000)), predicate, nontrivial)  # round 6 (drawn last)
     items += ruleprops.run_items(ctx, negscore_pairs(ctx, ctx.scale(500, 5000)), predicate, nontrivial)
+    items += ruleprops.run_items(ctx, refuse_pairs(ctx, ctx.scale(400, 4000)), predicate, nontrivial, compare=False)  # round 8 (drawn last)
     ctx.extra["capped_runs"] = sum(1 for it in items if getattr(it, "capped", False))
     ctx.extra["binary_sat"] = {str(k): sum(1 for it in items if it.cfg.get("binary") == k) for k in (None, True, False)}
 
